@@ -34,7 +34,7 @@ def gen(ck, n, length, profile):
     return hs
 
 
-def run_generic(pid, profile, tier, seed, domains=None, extra_domains=(), n_quick=260, n_thorough=3000, rule=RULE):
+def run_generic(pid, profile, tier, seed, domains=None, extra_domains=(), n_quick=260, n_thorough=2000, rule=RULE):
     ck = Check(pid, tier, seed)
     build("dom_replay")
     doms = list(domains or domops.all_domains()) + list(extra_domains)
@@ -64,7 +64,7 @@ def run_generic(pid, profile, tier, seed, domains=None, extra_domains=(), n_quic
     if fam is not None:
         rdoms = [d for d in doms if d in ("intervals", "sparse_dbm", "split_dbm", "split_oct", "term_sdbm", "as_sdbm", "pack_sdbm",
                                          "fixed_tvpi", "lw_soct", "num_product", "pow_sdbm", "ref_split_dbm", "ref_split_oct", "bool_dbm")]
-        nf = 400 if tier == "quick" else 6000
+        nf = 400 if tier == "quick" else 3000
         for off in range(0, nf, 1000):
             hs = [fam(ck.rng, 500000 + off + i, params=ck.rng.choice(PARAMS)) for i in range(min(1000, nf - off))]
             fails, knowns, _ = domops.run_batch(ck, "fam%d" % off, hs, rdoms, box=box, univ=univ)
@@ -76,7 +76,7 @@ def run_generic(pid, profile, tier, seed, domains=None, extra_domains=(), n_quic
     if pid in ("C03", "C04"):
         # large-magnitude family: constants around +-2^25..2^27 (beyond float precision; DBM weights, interval bounds,
         # congruences with large moduli), each trace with its own sample of top (spec/DomainOps.tla RangeT / UT)
-        nf = 200 if tier == "quick" else 1600
+        nf = 200 if tier == "quick" else 1200
         for off in range(0, nf, 400):
             hs = [hist.large_history(ck.rng, 900000 + off + i, params=ck.rng.choice(PARAMS)) for i in range(min(400, nf - off))]
             fails, knowns, _ = domops.run_batch(ck, "large%d" % off, hs, doms, box=box, univ=univ, timeout=3000)
@@ -121,7 +121,7 @@ def run_generic(pid, profile, tier, seed, domains=None, extra_domains=(), n_quic
         rdoms2 = [d for d in doms if d in ("split_dbm", "sparse_dbm", "split_oct", "sdbm_ss", "sdbm_pt", "sdbm_ht", "sdbm_safe", "sdbm_big",
                                           "spdbm_safe", "soct_safe", "term_sdbm", "as_sdbm", "pack_sdbm", "bool_dbm", "pow_sdbm", "ref_split_dbm",
                                           "ref_split_oct", "num_product", "fixed_tvpi", "intervals")]
-        nfb = 400 if tier == "quick" else 3000
+        nfb = 400 if tier == "quick" else 2000
         for off in range(0, nfb, 1000):
             hs = [hist.bounds_diff_leq_history(ck.rng, 550000 + off + i, params=ck.rng.choice(PARAMS)) for i in range(min(1000, nfb - off))]
             fails, knowns, _ = domops.run_batch(ck, "fambd%d" % off, hs, rdoms2, box=box, univ=univ, timeout=3000)
@@ -132,7 +132,7 @@ def run_generic(pid, profile, tier, seed, domains=None, extra_domains=(), n_quic
         ck.cov["directed_family_4"] = {"name": "bounds_diff_leq_history", "histories": nfb, "domains": rdoms2}
     if pid == "C04":    # second directed family: inclusion between values of the disjunctive domains
         ddoms = [d for d in doms if d in ("pow_int", "pow_sdbm", "dis_intervals", "vp_int", "term_dis_int", "ric", "congruences", "intervals")]
-        nf = 200 if tier == "quick" else 1500
+        nf = 200 if tier == "quick" else 1000
         for off in range(0, nf, 500):
             hs = [hist.disjunct_leq_history(ck.rng, 600000 + off + i, params=ck.rng.choice(PARAMS)) for i in range(min(500, nf - off))]
             fails, knowns, _ = domops.run_batch(ck, "famdisj%d" % off, hs, ddoms, box=box, univ=univ, timeout=3000)
@@ -144,7 +144,7 @@ def run_generic(pid, profile, tier, seed, domains=None, extra_domains=(), n_quic
         # third directed family: environments over different variable sets (6 variables, box -1..1)
         wdoms = [d for d in doms if d in ("intervals", "dis_intervals", "congruences", "ric", "constant", "sign", "sign_constant", "bool_int",
                                           "term_int", "aa_int", "pow_int", "vp_int", "rgn_int", "ref_intervals", "split_dbm", "split_oct")]
-        nf = 150 if tier == "quick" else 1500
+        nf = 150 if tier == "quick" else 1000
         for off in range(0, nf, 500):
             hs = [hist.wide_join_history(ck.rng, 650000 + off + i, params=ck.rng.choice(PARAMS)) for i in range(min(500, nf - off))]
             fails, knowns, _ = domops.run_batch(ck, "famwide%d" % off, hs, wdoms, box=1, univ=6, timeout=3000)
